@@ -96,6 +96,9 @@ def run_check(prop, tier, seed):
                    trace=[], worker_notes=[])
         if k:
             known_hits.append((k, rec))
+        elif any(q.get('status') == 'known' and q.get('property') != prop and 'deviation_re' in q.get('match', {}) and
+                 re.search(q['match']['deviation_re'], name) for q in known):
+            pass    # the known finding of another property (this property says nothing about that behaviour)
         else:
             violations.append(rec)
 
